@@ -108,31 +108,33 @@ func runC18(c *Ctx) {
 	ruleClientParse(c)
 	R.Rule("R-lmtp-loop", "E4+E6", "the LMTP reply loop counts down from len(rcpts) by one, reads one reply per iteration, attributes it to rcpts[len-remaining] and calls the callback at most once per iteration", 5)
 	// which end-of-data exchange runs is decided by the client's protocol (Client.lmtp), whoever created the writer
-	if f := c.A.Func("(*dataCloser).Close"); f != nil {
-		loops := findLoops(f)
+	if f0 := c.A.Func("(*dataCloser).Close"); f0 != nil {
 		nRd := 0
-		allInstrs(f, func(in ssa.Instruction) {
-			if !isStaticCall(in, "(*Client).readResponse") {
-				return
-			}
-			nRd++
-			inLoop := false
-			for _, li := range loops {
-				if li.blocks[in.Block()] {
-					inLoop = true
+		for _, f := range c18CloseScope(c) {
+			loops := findLoops(f)
+			allInstrs(f, func(in ssa.Instruction) {
+				if !isStaticCall(in, "(*Client).readResponse") {
+					return
 				}
-			}
-			if inLoop {
-				c.obUnreach("per-recipient replies read although the client speaks SMTP", in, `Client.lmtp == false`)
-			} else {
-				// (the length hypothesis is trivially true; it lets a redundant "count >= 0" guard be decided)
-				c.obUnreach("single reply read although the client speaks LMTP", in, `Client.lmtp == true`, `builtin:len(Client.rcpts) >= 0`)
-			}
-		})
-		R.Ob("(*dataCloser).Close/reads replies", c.P.Pos(f.Pos()), nRd >= 2, "expected a reply loop and a single read")
+				nRd++
+				inLoop := false
+				for _, li := range loops {
+					if li.blocks[in.Block()] {
+						inLoop = true
+					}
+				}
+				if inLoop {
+					c.obUnreach("per-recipient replies read although the client speaks SMTP", in, `Client.lmtp == false`)
+				} else {
+					// (the length hypothesis is trivially true; it lets a redundant "count >= 0" guard be decided)
+					c.obUnreach("single reply read although the client speaks LMTP", in, `Client.lmtp == true`, `builtin:len(Client.rcpts) >= 0`)
+				}
+			})
+		}
+		R.Ob("(*dataCloser).Close/reads replies", c.P.Pos(f0.Pos()), nRd >= 2, "expected a reply loop and a single read")
 	}
 
-	if f := c.A.Func("(*dataCloser).Close"); f != nil {
+	if f := c18ReplyLoopFunc(c); f != nil {
 		var loop *loopInfo
 		for _, li := range findLoops(f) {
 			for b := range li.blocks {
@@ -229,7 +231,7 @@ func runC18(c *Ctx) {
 	ruleLMTPLoopComplete(c)
 
 	R.Rule("R-lmtp-error-not-lost", "E4", "a per-recipient SMTPError flows to the callback or, when no callback was supplied, to Close's return value; any other read error is returned", 2)
-	if f := c.A.Func("(*dataCloser).Close"); f != nil {
+	if f := c18ReplyLoopFunc(c); f != nil {
 		viaReturn, nonSMTP := false, false
 		allInstrs(f, func(in ssa.Instruction) {
 			r, ok := in.(*ssa.Return)
@@ -256,7 +258,7 @@ func runC18(c *Ctx) {
 func ruleLMTPLoopComplete(c *Ctx) {
 	R := c.R
 	R.Rule("R-lmtp-loop-complete", "E3 edge-feasibility", "inside the LMTP reply loop only a non-SMTP (I/O) error may return; an SMTPError reply continues with the next recipient", 1)
-	f := c.A.Func("(*dataCloser).Close")
+	f := c18ReplyLoopFunc(c)
 	if f == nil {
 		return
 	}
@@ -332,4 +334,48 @@ func ruleRcptsRecorded(c *Ctx) {
 			c.obFollowH("every accepted RCPT is recorded", f, func(in ssa.Instruction) bool { return in == site }, []string{"st:Client.rcpts"}, describe(site.(ssa.Value))+"#2 == nil")
 		}
 	}
+}
+
+// c18CloseScope: (*dataCloser).Close and the unexported helpers it calls (one level): the end-of-data exchange may be
+// split into helpers (readLMTPReplies).
+func c18CloseScope(c *Ctx) []*ssa.Function {
+	f := c.A.Func("(*dataCloser).Close")
+	if f == nil {
+		return nil
+	}
+	out := []*ssa.Function{f}
+	seen := map[*ssa.Function]bool{f: true}
+	allInstrs(f, func(in ssa.Instruction) {
+		cc := callCommon(in)
+		if cc == nil {
+			return
+		}
+		g := staticCallee(cc)
+		if g == nil || seen[g] || !inSmtp(g) || isExported(g) || g.Blocks == nil || g.Parent() != nil {
+			return
+		}
+		n := funcName(g)
+		if strings.HasPrefix(n, "(*dataCloser).") {
+			seen[g] = true
+			out = append(out, g)
+		}
+	})
+	return out
+}
+
+// c18ReplyLoopFunc: the function of the Close scope that holds the per-recipient reply loop (Close itself on the tree
+// as it is).
+func c18ReplyLoopFunc(c *Ctx) *ssa.Function {
+	for _, f := range c18CloseScope(c) {
+		for _, li := range findLoops(f) {
+			for b := range li.blocks {
+				for _, in := range b.Instrs {
+					if isStaticCall(in, "(*Client).readResponse") {
+						return f
+					}
+				}
+			}
+		}
+	}
+	return c.A.Func("(*dataCloser).Close")
 }
